@@ -114,6 +114,25 @@ def cases(tier):
             add(name + "/cumulative-assigned", mk("cu"), A, ctx=ctx_c)
             add(name + "/cumulative-unassigned", mk("cn"), Rj, ctx=ctx_c)
             add(name + "/assigned-through-selection", mk("u"), A, ctx=ctx_c)
+    # resources whose only task is zero-duration / optional / dynamically assigned are assigned resources too
+    ctx_x = CTX + [zero("z"), worker("wz"), req("z", "wz"), fixed("oo", 2, optional=True), worker("wo"), req("oo", "wo"),
+                   fixed("dd", 2), worker("wd"), req("dd", "wd", dynamic=True), var("vv", max_duration=2), worker("wv"), req("vv", "wv", delay_in=1)]
+    for name, mk in rc.items():
+        if name in ("ResourceTasksDistance",):
+            continue
+        for r_ in ("wz", "wo", "wd", "wv"):
+            add(name + "/assigned-only-to-" + {"wz": "zero-duration-task", "wo": "optional-task", "wd": "dynamic-requirement", "wv": "delayed-requirement"}[r_],
+                mk(r_), A, ctx=ctx_x)
+    # a mandatory constraint stays mandatory after it was used as an operand of a connective
+    for wrap in ("Not", "Or", "Implies"):
+        k1 = con("TaskStartAt", "k1", task=R("a"), value=0)
+        ko = con("TaskEndAt", "ko", task=R("a"), value=1, optional=True)
+        w_ = {"Not": con("Not", "wr", constraint=R("k1")), "Or": con("Or", "wr", list_of_constraints=[R("k1"), E(["==", ["start", "a"], 2])]),
+              "Implies": con("Implies", "wr", condition=E(["==", ["start", "a"], 0]), list_of_constraints=[R("k1")])}[wrap]
+        add("ForceApplyNOptionalConstraints/mandatory-operand-of-" + wrap, [k1, ko, w_,
+            con("ForceApplyNOptionalConstraints", "f", list_of_optional_constraints=[R("ko"), R("k1")], nb_constraints_to_apply=1)], Rj)
+        add("ForceApplyNOptionalConstraints/optional-operand-of-" + wrap, [dict(k1, args=dict(k1["args"], optional=True)), ko, w_,
+            con("ForceApplyNOptionalConstraints", "f", list_of_optional_constraints=[R("ko"), R("k1")], nb_constraints_to_apply=1)], A)
     for s1, s2 in (("s1", "s2"),):
         ctx_s = CTX + [select("s1", ["w", "u"]), select("s2", ["u", "v"]), fixed("b", 1), fixed("c", 1), req("b", "s1"), req("c", "s2")]
         add("SameWorkers", con("SameWorkers", "k", select_workers_1=R("s1"), select_workers_2=R("s2")), A, ctx=ctx_s)
